@@ -47,7 +47,8 @@ def SpStk (l : List Frame) : Prop := SpHasRun l → ¬ SpHasJn l
 set_option maxHeartbeats 8000000 in
 theorem spShapeJ (s : State) (t : Tid) (th : Thread) (fr : Frame) (rest : List Frame)
     (hth : s.threads t = some th) (hst : th.stack = fr :: rest) (hnr : lsRingOf fr = none)
-    (hrep : s.cfg.repaired = true) (hb1 : lseC fr = true → ¬ SpHasJn rest) (hb2 : lseC fr = true → ¬ SpHasRun rest) :
+    (hrep : s.cfg.repaired = true) (hb1 : lseC fr = true → ¬ SpHasJn rest) (hb2 : lseC fr = true → ¬ SpHasRun rest)
+    (hfs : ∀ fs, (fr = .fRst fs ∨ fr = .fWait fs ∨ fr = .fRstLoad fs ∨ fr = .fSet fs) → fs < 2) :
     ∃ th', (stepFrame s t th fr).1.threads t = some th' ∧ (SpStk (fr :: rest) → SpStk th'.stack) := by
   cases fr
   case ring pc => cases hnr
@@ -58,11 +59,14 @@ theorem spShapeJ (s : State) (t : Tid) (th : Thread) (fr : Frame) (rest : List F
     simp only [setThread, setSig, setPool, setFut, withFault, destroySig, upd_same, hth, Option.some.injEq, exists_eq_left']
     have hb1' := hb1
     have hb2' := hb2
+    have hfs' := hfs
+    try simp at hfs'
     simp only [lseC, lsC, Bool.or_self, Bool.or_false, Bool.or_true, forall_const, reduceCtorEq, false_implies] at hb1' hb2'
     intro hb
     simp only [SpStk, spHasJn_cons, spHasRun_cons, spJn, spRun] at hb
     simp [SpStk, Thread.cont, hst, hrep, spHasJn_cons, spHasRun_cons, spHasJn_nil, spHasRun_nil, spJn, spRun, hb1', hb2']
     try (simp_all; done)
+    try (intro _; omega)
 
 def SpStkInv (s : State) : Prop := ∀ t th, s.threads t = some th → SpStk th.stack
 
@@ -78,6 +82,11 @@ theorem spStk_step {cfg : Config} {s s' : State} {t : Tid} {o : List String} (hr
     | none =>
       exact spShapeJ s t th fr rest hth hst hnr hrep' (fun hc => spHasJn_base (hcb.1 hc))
         (fun hc => spHasRun_base (hcb.1 hc))
+        (by
+          have hadj : LP.AdjP (fr :: rest) := by rw [← hst]; exact LP.adj_reach hrep hr t th hth
+          intro fs hfs
+          have h0 := hadj.1
+          rcases hfs with rfl | rfl | rfl | rfl <;> simp only [LP.adjP] at h0 <;> omega)
     | some pc =>
       have hfr : fr = .ring pc := by cases fr <;> simp [lsRingOf] at hnr; rw [hnr]
       subst hfr
